@@ -111,7 +111,7 @@ class G:
             (3, self.c_verb), (4, self.c_usermacro), (3, self.c_cite), (2, self.c_ltmacro),
             (2, self.c_foreign), (1, self.c_hspace), (1, self.c_linebreak), (1, self.c_def), (2, self.c_gls),
         ]
-        if ctx == 'text' or (ctx == 'heading' and self.p('heading_footnotes', True)):
+        if ctx in ('text', 'fn') or (ctx == 'heading' and self.p('heading_footnotes', True)):
             choices += [(4, self.c_footnote)]
         if allow_par and ctx == 'text' and not self.in_heading:
             choices += [(4, self.c_heading), (4, self.c_itemize), (4, self.c_display), (3, self.c_env_unknown),
@@ -205,7 +205,7 @@ class G:
 
     def c_footnote(self):
         return {'t': 'footnote', 'name': self.rng.choice(['\\footnote', '\\footnote', '\\footnotetext']),
-                'opt': self.rng.choice([None, None, '1']), 'body': self.seq(self.rng.randint(1, 4), allow_par=False, ctx='arg')}
+                'opt': self.rng.choice([None, None, '1']), 'body': self.seq(self.rng.randint(1, 4), allow_par=False, ctx='fn')}
 
     def c_heading(self):
         self.in_heading = True
@@ -336,7 +336,7 @@ class G:
                 'body': self.seq(self.rng.randint(1, 4))}
 
     def c_caption_fig(self):
-        return {'t': 'figure', 'body': self.seq(2, allow_par=False), 'caption': self.seq(self.rng.randint(1, 3), allow_par=False, ctx='arg')}
+        return {'t': 'figure', 'body': self.seq(2, allow_par=False), 'caption': self.seq(self.rng.randint(1, 3), allow_par=False, ctx='fn')}
 
     def c_gls(self):
         rng = self.rng
@@ -369,6 +369,7 @@ class R:
         self.n = 0
         self.words = []      # dicts: w, start, role ('copy' | 'body' | 'hidden' | 'label')
         self.spans = []      # (node_type, start, end)
+        self.callspans = []  # (name, start, end) of user macro calls / theorem environments
         self.role = ['copy']
     def emit(self, s):
         self.out.append(s)
@@ -522,6 +523,8 @@ def r_newcommand(n, r):
     r.emit('}')
 def r_call(n, r):
     m = n['m']
+    r.callspans.append([m['name'], r.n, None])
+    cs = r.callspans[-1]
     r.emit(m['name'])
     if not n['args']:
         if n['sp'] != 'bare':
@@ -534,11 +537,15 @@ def r_call(n, r):
             r.emit(' ' + 'rßeZ'[k % 4])
         else:
             r.emit('{'); render(a, r); r.emit('}')
+    cs[2] = r.n
 def r_theorem(n, r):
-    r.emit('\\newtheorem{' + n['env'] + '}{'); r.word(n['title'], 'body'); r.emit('}\n\\begin{' + n['env'] + '}')
+    r.emit('\\newtheorem{' + n['env'] + '}{'); r.word(n['title'], 'body'); r.emit('}\n')
+    r.callspans.append(['thm:' + n['title'], r.n, None]); cs = r.callspans[-1]
+    r.emit('\\begin{' + n['env'] + '}')
     if n['opt'] is not None:
         r.emit('['); render(n['opt'], r); r.emit(']')
     r.emit('\n'); render(n['body'], r); r.emit('\n\\end{' + n['env'] + '}')
+    cs[2] = r.n
 def r_proof(n, r):
     r.emit('\\begin{proof}')
     if n['opt'] is not None:
